@@ -4,6 +4,8 @@ import re
 import hir as H
 import mir as M
 import rulelib as L
+import symrules as SR
+import sym as SY
 
 CRATES = ["identity_core"]
 OS = "identity_core::common::ordered_set::OrderedSet"
@@ -245,36 +247,40 @@ def run(F, R, tier):
     # ------------------------------------------------------------------ R3 constructors
     r3 = R.rule("C19-R3", "T2+T12", "TryFrom<Vec<T>> errors on the first refused append; FromIterator ignores refused appends (keeps first occurrences); serde try_from = Vec<T>")
     fn = "<" + OS + " as core::convert::TryFrom<alloc::vec::Vec>>::try_from"
-    h = F.hir(fn)
-    if r3.anchor(h, fn):
-        env = H.Env(h)
-        loops = L.for_loops(h)
-        ok = False
-        for it, pat, body, _ in loops:
-            io = H.origins(it, env)
-            for cond, oc, node in L.block_guards(body):
-                inner, neg = H.negated(cond)
-                inner = H.strip(inner)
-                if neg and inner.get("k") == "mcall" and (H.fn_name(inner) or "") == OS + "::append" and oc == "Err(OrderedSetDuplicate)" and io == {("param", "other")}:
-                    ok = True
-                    r3.site("TryFrom<Vec>: for item in other { if !this.append(item) { return Err(OrderedSetDuplicate) } }", node["sp"])
-        r3.require(ok, (fn, "duplicate-rejected"), "TryFrom<Vec<T>> does not reject a Vec with duplicate keys on the first refused append")
-        for n, oc in H.exits(h):
-            if oc == "Ok":
-                _, inner = H.ctor_class(n)
-                r3.require(H.local_name(inner) == "this", (fn, "returns"), "TryFrom<Vec<T>> does not return the set it filled")
+    if r3.anchor(F.hir(fn), fn):
+        # by abstract evaluation with append as an opaque call on a generic element of the input: a refused append is an error,
+        # every element goes through append, and the set returned is the one that was filled
+        tab = SR.Table(F, fn, opaque=r"OrderedSet::append$", rule=r3)
+        OTHER = SR.param("other")
+        rej = acc = False
+        for q in tab.paths:
+            aps = [e for e in q.calls(r"OrderedSet::append$") if isinstance(e.args[1], SY.Sym) and e.args[1].t[:1] == ("elem",) and e.args[1].t[1] == OTHER]
+            if q.val.get(("nonempty", OTHER)) is True:
+                if not r3.require(len(aps) == 1, (fn, "duplicate-rejected"), "TryFrom<Vec<T>> does not pass every element of the input through append"):
+                    continue
+                ok_ = q.succeeded(aps[0])
+                if SR.is_success(q.ret):
+                    acc = True
+                    r3.require(ok_ is True, (fn, "duplicate-rejected"), "TryFrom<Vec<T>> does not reject a Vec with duplicate keys on the first refused append")
+                    out = q.ret.fields[0] if isinstance(q.ret, SY.V) and q.ret.fields else None
+                    r3.require(out is not None and SY.term(out) == SY.term(aps[0].args[0]), (fn, "returns"), "TryFrom<Vec<T>> does not return the set it filled")
+                else:
+                    rej = rej or (ok_ is False and SR.err_name(q.ret) == "OrderedSetDuplicate")
+        r3.require(rej and acc or not tab.paths, (fn, "duplicate-rejected"), "TryFrom<Vec<T>> does not reject a Vec with duplicate keys on the first refused append")
+        r3.site("TryFrom<Vec>: every element → append; refused append → Err(OrderedSetDuplicate); returns the filled set")
     cands = F.find(r"^<identity_core::common::ordered_set::OrderedSet as core::iter::traits::collect::FromIterator(<.*>)?>::from_iter$")
     fn = cands[0] if cands else "<OrderedSet as FromIterator>::from_iter"
-    h = F.hir(fn)
-    if r3.anchor(h, fn):
-        loops = L.for_loops(h)
-        ok = False
-        for it, pat, body, _ in loops:
-            calls = [c for c in H.walk(body) if c.get("k") == "mcall" and (H.fn_name(c) or "") == OS + "::append"]
-            if calls and not L.block_guards(body):
-                ok = True
-                r3.site("FromIterator: for item in iter { this.append(item); }", calls[0]["sp"])
-        r3.require(ok, (fn, "dedup-first"), "FromIterator does not insert through append (which keeps the first occurrence of each key)")
+    if r3.anchor(F.hir(fn), fn):
+        tab = SR.Table(F, fn, opaque=r"OrderedSet::append$|size_hint$", rule=r3)
+        okf = False
+        for q in tab.paths:
+            aps = q.calls(r"OrderedSet::append$")
+            if aps:
+                okf = True
+                r3.require(SR.is_success(q.ret) and not isinstance(q.ret, SY.V) or SR.is_success(q.ret), (fn, "dedup-first"), "FromIterator fails on a refused append instead of keeping the first occurrence")
+                r3.require(q.succeeded(aps[0]) is None, (fn, "dedup-first"), "FromIterator branches on the result of append (it must simply keep the first occurrence of each key)")
+        r3.require(okf or not tab.paths, (fn, "dedup-first"), "FromIterator does not insert through append (which keeps the first occurrence of each key)")
+        r3.site("FromIterator: every item → append, result ignored")
     a = F.ast_item(OS)
     if r3.anchor(a, OS + " (ast)"):
         attrs = " ".join(a["attrs"])
